@@ -179,10 +179,7 @@ def run_case(case, ctx):
                              ('int_t', opts['integrate_t_profile'] and sg['t']['kind'] in ('constant', 'sine', 'pgauss', 'custom')),
                              ('int_path', opts['integrate_path'] and sg['path']['kind'] in ('constant', 'squared', 'sine', 'rfi', 'custom'))) if on]
     obs.cls(*flags)
-    kw = dict(integrate_path=opts['integrate_path'], integrate_t_profile=opts['integrate_t_profile'],
-              integrate_f_profile=opts['integrate_f_profile'], doppler_smearing=smear,
-              t_subsamples=opts['t_subsamples'], f_subsamples=opts['f_subsamples'],
-              smearing_subsamples=opts['smearing_subsamples'])
+    pos, kw = S.call_options(opts, None)
     ts_before = [np.array(f.ts, copy=True) for f in members]
 
     def ts_intact(tag):
@@ -218,7 +215,7 @@ def run_case(case, ctx):
                         fprof = make_faulty(fprof, k, 2, exc_t)
                     data_before = [f.data.copy() for f in members]
                     try:
-                        target.add_signal(path, tprof, fprof, bp, **kw)
+                        target.add_signal(path, tprof, fprof, bp, *pos, **kw)
                         obs.fail('fault_swallowed', f'k={k}')
                     except (Boom, BoomBase, KeyboardInterrupt):
                         pass
@@ -248,7 +245,7 @@ def run_case(case, ctx):
         bp = S.stg_bp(stg, ax0, sg['bp'])
         data_before = [f.data.copy() for f in members]
         ok, _ = core.call(obs, 'cadence.add_signal' + ('[' + '+'.join(flags) + ']' if flags else ''),
-                          target.add_signal, path, tprof, fprof, bp, **kw)
+                          target.add_signal, path, tprof, fprof, bp, *pos, **kw)
         ts_intact('after_injection')
         if not ok:
             return obs
@@ -289,9 +286,9 @@ def run_case(case, ctx):
             data_before = [f.data.copy() for f in mem]
             tsb = [np.array(f.ts, copy=True) for f in mem]
             if tgt is None:
-                ok, _ = core.call(obs, 'frame.add_signal[after cadence]', mem[0].add_signal, path, tprof, fprof, bp, **kw)
+                ok, _ = core.call(obs, 'frame.add_signal[after cadence]', mem[0].add_signal, path, tprof, fprof, bp, *pos, **kw)
             else:
-                ok, _ = core.call(obs, f'cadence.add_signal[{pname}]', tgt.add_signal, path, tprof, fprof, bp, **kw)
+                ok, _ = core.call(obs, f'cadence.add_signal[{pname}]', tgt.add_signal, path, tprof, fprof, bp, *pos, **kw)
             if not ok:
                 break
             cache = {}
